@@ -10,9 +10,9 @@ CONSTANTS
   TakeSet = {9}
   OpKinds = {}
   MOD = 1048576
-  FixA = FALSE
-  FixH = FALSE
-  OrdCurrent = "Relaxed"
+  FixA = TRUE
+  FixH = TRUE
+  OrdCurrent = "Acquire"
   Mutant = ""
 CONSTRAINT Publish
 POSTCONDITION Accepted
